@@ -59,9 +59,10 @@ Section Meta.
     i_x : list value   (* colvar_values *)
   }.
 
-  (* what happens to the bias: a step of the engine, or the state being written (end of a run,
-     restart frequency) *)
-  Inductive event := EStep (i : step_in) | ESave.
+  (* what happens to the bias: a step of the engine; the state being written (end of a run, restart
+     frequency); a restart: the state is written and read by a fresh instance with the same configuration,
+     except, with [Some g], for new grid boundaries g and rebinGrids on *)
+  Inductive event := EStep (i : step_in) | ESave | ERestart (rebin : option (list bound)).
 
   (* ---- metric of one variable: colvar::dist2 / dist2_lgrad ---- *)
 
@@ -356,8 +357,51 @@ Section Meta.
   (* write_state_data: with grids the hills not yet projected are projected before the grids are written *)
   Definition save_state (c : cfg) (s : state) : state := if c_use_grids c then project c s else s.
 
+  (* ---- restart: write_state_data, then read_state_data in a fresh instance ---- *)
+
+  (* the hills written to the state: all of them without grids or with keepHills, else hills_off_grid *)
+  Definition state_hills (c : cfg) (s : state) : list hill :=
+    if negb (c_use_grids c) || c_keep c then st_old s ++ st_new s else st_off_old s ++ st_off_new s.
+
+  Definition near_hill (c : cfg) (g : list bound) (h : hill) : bool := near_edge c g (h_c h).
+
+  (* read_state_data: the grids (with their geometry) are those of the file; every hill of the file is
+     appended to hills and, when near the edges of the grid just read, to hills_off_grid; new_hills_begin is
+     the end of the list with grids (the hills are on the grids) and its beginning without *)
+  Definition read_state (c : cfg) (s : state) : state :=
+    let hs := state_hills c s in
+    if c_use_grids c
+    then mkState hs [] (filter (near_hill c (st_geom s)) hs) [] (st_e s) (st_g s) (st_geom s)
+    else mkState [] hs [] [] (st_e s) (st_g s) (st_geom s).
+
+  (* rebin_grids_after_restart with the boundaries g' of the new configuration: from the kept hills when the
+     state was written with keepHills and holds hills (project_hills onto empty grids), else from the grids of
+     the state (map_grid); then recount_hills_off_grid when there are hills *)
+  Definition rebin_state (c : cfg) (s : state) (g' : list bound) : state :=
+    if c_use_grids c then
+      let hs := st_old s in
+      let from_hills := c_keep c && match hs with [] => false | _ => true end in
+      let gold := st_geom s in
+      let eold := st_e s in
+      let gradold := st_g s in
+      mkState hs [] (match hs with [] => st_off_old s | _ => filter (near_hill c g') hs end) []
+        (if from_hills
+         then (fun ix => nadd O (n0 O) (hills_energy (c_vars c) (centre (c_vars c) g' ix) hs (n0 O)))
+         else (fun ix => let oix := remap_ix (c_vars c) g' gold ix in
+                         if index_ok (gsizes gold) oix then eold oix else n0 O))
+        (if from_hills
+         then (fun ix k => nsub O (n0 O) (sc (hills_force (c_vars c) (centre (c_vars c) g' ix) k hs [n0 O])))
+         else (fun ix k => let oix := remap_ix (c_vars c) g' gold ix in
+                           if index_ok (gsizes gold) oix then gradold oix k else n0 O))
+        g'
+    else s.
+
+  Definition restart_state (c : cfg) (s : state) (rebin : option (list bound)) : state :=
+    let s1 := read_state c (save_state c s) in
+    match rebin with None => s1 | Some g' => rebin_state c s1 g' end.
+
   Definition apply_event (c : cfg) (s : state) (e : event) : state :=
-    match e with EStep i => step_state c s i | ESave => save_state c s end.
+    match e with EStep i => step_state c s i | ESave => save_state c s | ERestart r => restart_state c s r end.
 
   Definition final_state (c : cfg) (hist : list event) : state :=
     fold_left (apply_event c) hist (init_state c).
